@@ -200,7 +200,8 @@ impl Subscriber for SubscriberService {
 
         log::debug!("{}: deleting subscription", &subscription_name);
         subscription.delete().await.map_err(|e| match e {
-            DeleteError::Closed => conflict(),
+            // The subscription went away under us: another deletion won.
+            DeleteError::Closed => subscription_not_found(&subscription_name),
         })?;
         log::debug!(
             "{}: deleting subscription {}",
